@@ -24,6 +24,7 @@ macro_rules! dispatch {
       "C06" => $f::<props::c06::C06>($($arg),*),
       "C07" => $f::<props::c07::C07>($($arg),*),
       "C08" => $f::<props::c08::C08>($($arg),*),
+      "C09" => $f::<props::c09::C09>($($arg),*),
       "C10" => $f::<props::c10::C10>($($arg),*),
       "C11" => $f::<props::c11::C11>($($arg),*),
       "C12" => $f::<props::c12::C12>($($arg),*),
@@ -45,6 +46,8 @@ fn main() {
   match args[1].as_str() {
     "probe" => probe(),
     "fmtone" => fmtone(),
+    "c09time" => c09time(),
+    "parsetime" => { use std::io::Read; mech::install_quiet_panic_hook(); let mut s = String::new(); std::io::stdin().read_to_string(&mut s).unwrap(); let h = std::thread::Builder::new().stack_size(1024 << 20).spawn(move || { let t0 = std::time::Instant::now(); let r = std::panic::catch_unwind(std::panic::AssertUnwindSafe(|| mech_syntax::parser::parse(&s))); println!("{} ms {}", t0.elapsed().as_millis(), match r { Ok(Ok(_)) => "ok", Ok(Err(_)) => "err", Err(_) => "panic" }); }).unwrap(); h.join().unwrap(); }
     "fmtprobe" => fmtprobe(),
     "docprobe" => docprobe(),
     "compileprobe" => compileprobe(),
@@ -210,6 +213,34 @@ fn fmtone() {
         Err(_) => println!("SRC {:?}\n  does not parse", snip),
         Ok(t) => { let f = mech_syntax::formatter::Formatter::new().format(&t); println!("SRC {:?}\n  FMT {:?}\n  {}", snip, f, match props::c08::round_trip(snip) { props::c08::Fmt::Ok(_) => "ok".to_string(), props::c08::Fmt::Discard(w) => w, props::c08::Fmt::Fail(k, _) => format!("FAIL {}", k) }); }
       }
+    }
+  }).unwrap();
+  h.join().unwrap();
+}
+
+/// dev probe: time the parser on generated C09 cases (prints the case before parsing so a hang is visible)
+fn c09time() {
+  use proptest::strategy::{Strategy, ValueTree};
+  use proptest::test_runner::{Config, RngAlgorithm, TestRng, TestRunner};
+  use engine::Prop;
+  mech::install_quiet_panic_hook();
+  let args: Vec<String> = std::env::args().collect();
+  let n: usize = args.get(2).and_then(|s| s.parse().ok()).unwrap_or(2000);
+  let seed: u64 = args.get(3).and_then(|s| s.parse().ok()).unwrap_or(1);
+  let limit_ms: u128 = args.get(4).and_then(|s| s.parse().ok()).unwrap_or(500);
+  let h = std::thread::Builder::new().stack_size(1024 << 20).spawn(move || {
+    let known = engine::Known::load("C09");
+    let strat = props::c09::C09::strategy(engine::Tier::Quick, &known);
+    let mut seed_bytes = [0u8; 32]; seed_bytes[..8].copy_from_slice(&seed.to_le_bytes());
+    let mut runner = TestRunner::new_with_rng(Config::default(), TestRng::from_seed(RngAlgorithm::ChaCha, &seed_bytes));
+    for i in 0..n {
+      let case = strat.new_tree(&mut runner).unwrap().current();
+      let text = props::c09::case_text(&case).unwrap_or_default();
+      let t0 = std::time::Instant::now();
+      eprintln!("#{} {:?}", i, text.chars().take(300).collect::<String>());
+      let _ = std::panic::catch_unwind(std::panic::AssertUnwindSafe(|| mech_syntax::parser::parse(&text)));
+      let ms = t0.elapsed().as_millis();
+      if ms > limit_ms { println!("SLOW {} ms  #{} {}", ms, i, serde_json::to_string(&case).unwrap_or_default().chars().take(300).collect::<String>()); println!("   text {:?}", text.chars().take(400).collect::<String>()); }
     }
   }).unwrap();
   h.join().unwrap();
